@@ -56,7 +56,7 @@ def _required(tier):
         "plans_accepted", "plans_rejected_before_yield", "blocks_yielded", "regime:lastread<skipback", "regime:gulp>nsamps",
         "regime:block_crosses_file_boundary", "regime:partial_last_block_before_eof", "regime:gulp_not_dividing",
         "regime:start>0", "regime:skipback>gulp/2", "regime:skipback>=gulp", "overlap_audits", "spy:creadinto", "spy:seek",
-        "regime:continuation_plans_on_one_reader", "regime:packed_block_over_1KiB_odd_byte_count",
+        "regime:continuation_plans_on_one_reader", "regime:packed_block_over_1KiB_odd_byte_count", "regime:names_held_another_geometry_of_equal_size", "regime:plan_abandoned_before_the_next",
     ]
 
 
@@ -206,6 +206,18 @@ def _files(ctx, cfg, dseed):
         X = make_data(cfg, dseed)
         d = os.path.join(ctx.tmp, f"c{len(os.listdir(ctx.tmp))}")
         os.makedirs(d)
+        alt = [b for b in (1, 2, 4, 8, 16, 32) if b != cfg["nbits"] and (cfg["nchans"] * cfg["nbits"]) % b == 0]
+        if dseed % 3 == 0 and alt:
+            # the same names held another observation of exactly the same size a moment ago (other depth x channel count, same bytes per sample),
+            # and this process has opened it: nothing of that may survive in what is read next
+            from sigpyproc.readers import FilReader
+
+            nb2 = alt[dseed % len(alt)]
+            cfg2 = dict(cfg, nbits=nb2, nchans=cfg["nchans"] * cfg["nbits"] // nb2)
+            old_paths = sigfile.write_split(d, make_data(cfg2, dseed + 1), nb2, cfg["split"])
+            f0 = FilReader(old_paths if len(old_paths) > 1 else old_paths[0])
+            f0.read_block(0, 1)
+            ctx.count("regime:names_held_another_geometry_of_equal_size")
         paths = sigfile.write_split(d, X, cfg["nbits"], cfg["split"])
         cache[key] = (X, paths)
     return cache[key]
@@ -310,6 +322,14 @@ def _run_plans(case, ctx, cfg, fil, Xf):
         one = {"cfg": cfg, "dseed": case["dseed"], "plans": [list(plan)], "alloc": case.get("alloc", "default"), "relchdir": bool(case.get("relchdir"))}
         if case.get("chain"):     # the history matters: the replay record holds every plan run on this reader so far
             one = dict(one, plans=[list(q) for q in case["plans"][: ip + 1]], chain=True)
+            if case["dseed"] % 2 and nsamps >= 2:
+                # the consumer looks at one block and drops the plan (break out of a loop): the next plan is served like any other
+                it = fil.read_plan(gulp=max(1, nsamps // 2), start=start, nsamps=nsamps, quiet=True, description="v")
+                next(it)
+                if ip % 2:
+                    it.close()
+                del it
+                ctx.count("regime:plan_abandoned_before_the_next")
         check_plan(ctx, fil, Xf, cfg, bounds, gulp, start, nsamps, skipback, alloc, one)
 
 
